@@ -227,14 +227,16 @@ func ParseField(v reflect.Value, bytes []byte, params fieldParameters) error {
 				offset := 0
 				// embed choice type
 				if params.tagNumber != nil {
-					tal, talOff, err = parseTagAndLength(bytes[talOff:])
+					// the alternative's own element starts after the header of the enclosing tag
+					outerOff := talOff
+					tal, talOff, err = parseTagAndLength(bytes[outerOff:])
 					if err != nil {
 						return err
 					}
-					if int64(talOff)+tal.len > int64(len(bytes)) {
+					if int64(outerOff)+int64(talOff)+tal.len > int64(len(bytes)) {
 						return fmt.Errorf("type value out of range")
 					}
-					offset += talOff
+					offset += outerOff
 				}
 
 				for i := 1; i < structType.NumField(); i++ {
